@@ -136,15 +136,15 @@ theorem flatten_recurse_stepC17 (h : util_flatten_recurse_available = true) (G :
       | list ys => 
         have := HP _ hc b rfl
         simp only [embValC17] at this
-        simp [embValC17, isInstance, builtinClasses, this]
+        simp [embValC17, isInstance, builtinClasses, classBases, isNone, this]
       | tuple ys => 
         have := HP _ hc b rfl
         simp only [embValC17] at this
-        simp [embValC17, isInstance, builtinClasses, this]
+        simp [embValC17, isInstance, builtinClasses, classBases, isNone, this]
       | tagList ys => 
         have := HP _ hc b rfl
         simp only [embValC17, embTagListC17] at this
-        simp [embValC17, embTagListC17, isInstance, builtinClasses, classBases, this]
+        simp [embValC17, embTagListC17, isInstance, builtinClasses, classBases, isNone, this]
       | _ => simp [embValC17, tagRefC17, mkRefC17, ellipsisC17, isInstance, builtinClasses, classBases, isNone, Val.flat, pyListAppendA_listC17]
 
 /-- `_flatten_recurse(x, result)`, for all items nested to depth ≤ n and any fuel above n: `result` followed by the model's
